@@ -19,7 +19,8 @@ pub uninterp spec fn analyze_groups(roots: Set<Seq<char>>, changes: Option<Seq<S
 pub uninterp spec fn analyze_targets(roots: Set<Seq<char>>, changes: Option<Seq<Seq<char>>>) -> Seq<Seq<char>>;
 pub open spec fn in_groups(g: Seq<Seq<Seq<char>>>, t: Seq<char>) -> bool { exists|a: int, b: int| 0 <= a < g.len() && 0 <= b < g[a].len() && #[trigger] g[a][b] == t }
 pub open spec fn in_names(v: Seq<Seq<char>>, t: Seq<char>) -> bool { exists|a: int| 0 <= a < v.len() && #[trigger] v[a] == t }
-pub uninterp spec fn argmap_file_name_of(m: Seq<char>) -> Seq<char>;
+// `format!("{}.json", m)`: the requested name followed by `.json`, whatever dots the name contains
+pub open spec fn argmap_file_name_of(m: Seq<char>) -> Seq<char> { m + ".json"@ }
 #[verifier::external_body] pub fn argmap_file_name(m: &String) -> (r: String) ensures r@ == argmap_file_name_of(m@) { unimplemented!() }
 pub uninterp spec fn argmap_dir(target: Seq<char>, work_path: Seq<char>) -> Seq<char>;
 // the merge attempts C11 documents for one target: its `base` file (unless disabled), then each requested argmap file in the order given
